@@ -27,7 +27,7 @@ MAPPINGS, the same for every rung of a ladder, for which  err(nx) <= C/nx  and  
 Positions beyond 1 are mirrored (x -> 2 - x), which the no-flow condition makes exact.
 
 Constants (3 x the largest nx * err observed on the repaired code):
-  ladder.ideal.field 4.4   ladder.ideal.recovery 3.7   ladder.const.field 1.25   ladder.const.recovery 1.6
+  ladder.ideal.field 4.4   ladder.ideal.recovery 3.7   ladder.const.field 1.25   ladder.const.recovery 1.7
   ladder.pvt.field 1.6
 Ladders (nx, nt) = (20,200), (40,800), (80,3200) quick, plus (160,12800) thorough; p_f/p_i in {0.1, 0.5, 0.9}.
 """
@@ -44,7 +44,7 @@ LADDER = ((20, 200), (40, 800), (80, 3200), (160, 12800))
 RATIOS = (0.1, 0.5, 0.9)
 T_MIN = 0.05
 SHRINK = 0.75
-C = {"ladder.ideal.field": 4.4, "ladder.ideal.recovery": 3.7, "ladder.const.field": 1.25, "ladder.const.recovery": 1.6, "ladder.pvt.field": 1.6}
+C = {"ladder.ideal.field": 4.4, "ladder.ideal.recovery": 3.7, "ladder.const.field": 1.25, "ladder.const.recovery": 1.7, "ladder.pvt.field": 1.6}
 MAPPINGS = {
     "(j+1)/(nx-1)": lambda j, n: (j + 1.0) / (n - 1.0),
     "(j+1)/nx": lambda j, n: (j + 1.0) / n,
